@@ -114,7 +114,7 @@ def gen_cases(tier, seed):
     for fn, real, web in ycases:
         cases.append({"kind": "yaml_entry", "file": fn, "real": real, "web": web, "iso": "YAML", "tag": "entry:%s:%s:%s" % (fn, "real" if real else "recorded", "web" if web else "plain"),
                       "id": "YAML|%s|%s|%s" % (fn, real, web)})
-    for k in range(3 if tier == "quick" else 20):
+    for k in range(8 if tier == "quick" else 60):
         cases.append({"kind": "yaml_entry", "file": None, "gen_seed": seed * 53 + k, "real": False, "web": bool(k % 2), "iso": "YAML", "tag": "entry:generated#%d" % k, "id": "YAML|generated#%d" % k})
     return cases
 
@@ -157,7 +157,13 @@ def yaml_entry(case):
         for j in range(rnd.choice([1, 2, 4])):
             o = workload.random_options(rnd)
             o["title"] = "generated simulation %d v1.%d" % (j, j)
+            o.pop("NMONTHS", None)  # as in the shipped files: the horizon is in the settings block
             sims["sim_%d" % j] = o
+        if len(sims) > 1 and rnd.random() < 0.6:
+            # one simulation (not the last) carries a horizon of its own next to the one in the settings block: whatever the
+            # entry point makes of that entry, the other simulations run with the settings' horizon
+            own = rnd.choice(list(sims)[:-1])
+            sims[own]["NMONTHS"] = rnd.choice([n for n in (120, 72, 48, 24) if n != settings["NMONTHS"]])
         cfg = {"settings": settings, "simulations": sims}
         loaded = copy.deepcopy(cfg)
     want = []
@@ -165,7 +171,7 @@ def yaml_entry(case):
     wc = st.get("countries", [])
     wc = [wc] if isinstance(wc, str) else list(wc)
     for name, sim in cfg["simulations"].items():
-        want.append((sim["title"], dict(sim, NMONTHS=st["NMONTHS"]), wc, "_" + name))
+        want.append((sim["title"], dict(sim, NMONTHS=st["NMONTHS"]), wc, "_" + name, sim.get("NMONTHS")))
     calls = []
     orig = ScenarioRunnerNoTrade.run_model_no_trade
 
@@ -194,6 +200,8 @@ def yaml_entry(case):
     for k, (c, w) in enumerate(zip(calls, want)):
         if c["title"] != w[0] or c["postfix"] != w[3]:
             bad("yaml_simulation_mislabelled", "call %d: title %r postfix %r, configuration says %r / %r" % (k, c["title"], c["postfix"], w[0], w[3]))
+        if w[4] is not None and (c["opts"] or {}).get("NMONTHS") == w[4]:
+            w[1]["NMONTHS"] = w[4]  # a horizon written into the simulation entry itself: either reading of it is accepted for that entry
         if c["opts"] != w[1]:
             diff = sorted(kk for kk in set(c["opts"] or {}) | set(w[1]) if (c["opts"] or {}).get(kk) != w[1].get(kk))
             bad("yaml_options_changed_on_the_way", "call %d (%s): options reaching the model differ from the file in %s" % (k, w[0], diff[:6]), keys=diff[:10])
